@@ -20,9 +20,11 @@ CONSTANTS Stores, LocalStores, AlgOf, Contents, Dig, Paths, OnePath, MaxSteps
 \* AlgOf[s] = the algorithm of store s; Dig[a][c] = digest of c under a; Paths = workspace files (one directory);
 \* OnePath = the file that is also added on its own (build() of a file rather than a directory)
 
-VARIABLES ws, store, prot, row, act, steps
-vars == <<ws, store, prot, row, act, steps>>
+VARIABLES ws, store, prot, row, saved, act, steps
+vars == <<ws, store, prot, row, saved, act, steps>>
 NoRow == [alg |-> "-", d |-> "-", c |-> "-"]
+\* saved[s] = the digests the index last saved into store s recorded, per path ("-" = no such index yet)
+NoSaved == [p \in Paths |-> "-"]
 
 Tick == steps' = steps + 1 /\ steps < MaxSteps
 \* the digest staging computes for workspace file p when asked for algorithm a: a cache hit needs the row to be
@@ -36,7 +38,7 @@ Edit(p, c, how) ==
     /\ ws' = [ws EXCEPT ![p] = c]
     /\ row' = [row EXCEPT ![p] = NoRow]      \* either way the (inode, mtime, size) token changes: the row is dead (C13)
     /\ act' = [op |-> "Edit", p |-> p, c |-> c, how |-> how]
-    /\ UNCHANGED <<store, prot>>
+    /\ UNCHANGED <<store, prot, saved>>
 
 \* store[s] is a set of <<name, content>> pairs with unique names: an object file that exists is never rewritten
 Names(S) == {x[1] : x \in S}
@@ -61,23 +63,37 @@ Add(s, how) ==
            nm(p) == IF how = "upload" THEN Dig[a][ws[p]] ELSE Staged(p, a)
        IN /\ AddPairs(s, {<<nm(p), ws[p]>> : p \in P})
           /\ row' = [p \in Paths |-> IF p \in P THEN [alg |-> a, d |-> Staged(p, a), c |-> ws[p]] ELSE row[p]]
+          /\ saved' = IF how = "save" THEN [saved EXCEPT ![s] = [p \in Paths |-> Staged(p, a)]] ELSE saved
     /\ act' = [op |-> "Add", s |-> s, how |-> how]
     /\ UNCHANGED ws
+
+\* the index saved into s EARLIER - with the digests it recorded then - is hashed again (index md5) and saved again, after
+\* whatever was edited since: the files are re-hashed (no cheap checksum to go by on a local file system); an entry whose
+\* file no longer has the recorded digest is left out; nothing is ever filed under a digest recorded for other bytes
+Resave(s) ==
+    /\ Tick /\ saved[s] # NoSaved
+    /\ LET a == AlgOf[s]
+           P == {p \in Paths : Staged(p, a) = saved[s][p]}
+       IN /\ AddPairs(s, {<<Staged(p, a), ws[p]>> : p \in P})
+          /\ row' = [p \in Paths |-> [alg |-> a, d |-> Staged(p, a), c |-> ws[p]]]
+    /\ act' = [op |-> "Resave", s |-> s]
+    /\ UNCHANGED <<ws, saved>>
 
 \* migrate(prepare(s, t)): every object of s is re-hashed under t's algorithm and added to t under that digest
 Migrate(s, t) ==
     /\ Tick /\ s # t
     /\ AddPairs(t, {<<Dig[AlgOf[t]][x[2]], x[2]>> : x \in store[s]})
     /\ act' = [op |-> "Migrate", s |-> s, t |-> t]
-    /\ UNCHANGED <<ws, row>>
+    /\ UNCHANGED <<ws, row, saved>>
 
 Next ==
     \/ \E p \in Paths, c \in Contents, how \in {"rewrite", "keep-mtime"} : Edit(p, c, how)
     \/ \E s \in Stores, how \in {"stage", "save", "upload", "file", "hardlink"} : Add(s, how)
     \/ \E s \in Stores, t \in Stores : Migrate(s, t)
+    \/ \E s \in Stores : Resave(s)
 
 Init == /\ ws \in [Paths -> Contents] /\ store = [s \in Stores |-> {}] /\ prot = [s \in Stores |-> {}]
-        /\ row = [p \in Paths |-> NoRow] /\ act = [op |-> "Init"] /\ steps = 0
+        /\ row = [p \in Paths |-> NoRow] /\ saved = [s \in Stores |-> NoSaved] /\ act = [op |-> "Init"] /\ steps = 0
 Spec == Init /\ [][Next]_vars
 
 (******************************* C01 predicates *****************************)
